@@ -1,0 +1,45 @@
+//go:build verif
+
+package transport
+
+import (
+	"net"
+
+	"golang.org/x/crypto/ssh"
+)
+
+// openSessionOver is openSession over a connection provided by a simulator: the same client
+// handshake ssh.Dial performs, then the same session and pipe setup as openSession.
+func (t *Standard) openSessionOver(c net.Conn, addr string, a *Args, cfg *ssh.ClientConfig) error {
+	cc, chans, reqs, err := ssh.NewClientConn(c, addr, cfg)
+	if err != nil {
+		a.l.Criticalf("error creating crypto/ssh client, error: %s", err)
+
+		return err
+	}
+
+	t.client = ssh.NewClient(cc, chans, reqs)
+
+	t.session, err = t.client.NewSession()
+	if err != nil {
+		a.l.Criticalf("error spawning crypto/ssh session, error: %s", err)
+
+		return err
+	}
+
+	t.writer, err = t.session.StdinPipe()
+	if err != nil {
+		a.l.Criticalf("error spawning crypto/ssh session stdin pipe, error: %s", err)
+
+		return err
+	}
+
+	t.reader, err = t.session.StdoutPipe()
+	if err != nil {
+		a.l.Criticalf("error spawning crypto/ssh session stdout pipe, error: %s", err)
+
+		return err
+	}
+
+	return nil
+}
